@@ -123,6 +123,9 @@ def own_headers(fmt, text):
     return out
 
 
+COUNTS_ONLY = ("endpoint",)     # damage that yields a well-formed file of ANOTHER molecule: only the counts clause is judged
+
+
 def judge(fmt, orig_snaps, damaged, what, route="string") -> tuple[str, Fail | None]:
     if isinstance(damaged, bytes):
         st_, res = parse_path(fmt, damaged)
@@ -144,7 +147,7 @@ def judge(fmt, orig_snaps, damaged, what, route="string") -> tuple[str, Fail | N
         na, nb = hdr[i]
         if m.n_atoms != na or (nb is not None and m.n_bonds != nb):
             return "bad", Fail(f"{fmt}:counts-differ-from-own-header:{what}", f"molecule {i}: header says {na} atoms / {nb} bonds, object has {m.n_atoms} / {m.n_bonds}")
-        d = chem.snap_diff(orig_snaps[i], chem.snapshot(m), skip=("name",) if fmt == "xyz" else ())
+        d = None if what in COUNTS_ONLY else chem.snap_diff(orig_snaps[i], chem.snapshot(m), skip=("name",) if fmt == "xyz" else ())
         if d is not None:
             return "bad", Fail(f"{fmt}:partial-or-altered-molecule-returned:{what}", f"molecule {i} of {len(res)} returned: {d}")
     return ("same" if len(res) == len(orig_snaps) else "prefix"), None
@@ -375,6 +378,33 @@ def apply_fault(fmt, text, fault):
         except (ValueError, IndexError):
             return None
         lines[li] = " ".join(toks)
+    elif kind == "endpoint":
+        # an endpoint of one BOND record becomes ANOTHER valid atom number: a well-formed file of another molecule - content is not
+        # judged (COUNTS_ONLY), but whatever comes back still has the counts its own header declares
+        fl = [f for f in _fields(fmt, lines) if f[0] < len(lines) and f[2] == "bint"]
+        if not fl:
+            return None
+        li, ti, fk = fl[fault[1] % len(fl)]
+        toks = lines[li].split()
+        try:
+            a, b = int(toks[1]), int(toks[2])
+        except (ValueError, IndexError):
+            return None
+        # the atom count of the molecule this record belongs to
+        na = None
+        for j in range(li, -1, -1):
+            if lines[j].strip().startswith("@<TRIPOS>MOLECULE"):
+                try:
+                    na = int(lines[j + 2].split()[0])
+                except (ValueError, IndexError):
+                    return None
+                break
+        if not na or na < 3:
+            return None
+        other = b if ti == 1 else a
+        cand = [x for x in range(1, na + 1) if x not in (a, b)]
+        toks[ti] = str(cand[fault[2] % len(cand)])
+        lines[li] = " ".join(toks)
     elif kind in ("tok_bad", "tok_del", "tok_ins"):
         fl = [f for f in _fields(fmt, lines) if f[0] < len(lines) and f[2] != "serial"]
         if not fl:
@@ -417,6 +447,11 @@ def check_faults(recipe) -> list[Fail]:
             pos = [i for i, b in enumerate(raw) if not chr(b).isspace()]
             at = pos[fault[1] % len(pos)]
             damaged = raw[:at] + [b"\xff", b"\x80", b"\xc3", b"\xfe"][fault[2] % 4] + raw[at + 1:]
+            try:
+                damaged.decode("utf-8")
+                continue      # (inside a multi-byte character the new byte can complete ANOTHER character: still text, a substitution)
+            except UnicodeDecodeError:
+                pass
         else:
             damaged = apply_fault(fmt, text, fault)
             if damaged is None or damaged.split() == text.split():
@@ -472,7 +507,7 @@ def strat_faults(tier):
     fault = st.one_of(
         st.tuples(st.just("del"), st.lists(i, min_size=1, max_size=2)).map(list),
         st.tuples(st.just("dup"), st.lists(i, min_size=1, max_size=2)).map(list),
-        st.tuples(st.sampled_from(["tok_bad", "tok_bad", "tok_del", "tok_ins", "renumber", "byte_bad"]), i, i).map(list),
+        st.tuples(st.sampled_from(["tok_bad", "tok_bad", "tok_del", "tok_ins", "renumber", "byte_bad", "endpoint"]), i, i).map(list),
     )
     return st.fixed_dictionaries({"src": _srcs(tier), "route": st.sampled_from(["string", "string", "path"]), "faults": st.lists(fault, min_size=8, max_size=20)})
 
@@ -553,6 +588,6 @@ LEGS = [
     Leg("trunc_gen", check_trunc, classify, strategy=strat_trunc, n={"quick": 150, "thorough": 3000}, shards={"quick": 16, "thorough": 32},
         rule="generated multi-molecule files (2-5 molecules that differ in atom and bond counts), same exhaustive truncation per file"),
     Leg("faults", check_faults, classify, strategy=strat_faults, n={"quick": 400, "thorough": 10000}, shards={"quick": 16, "thorough": 32},
-        rule="per file 8-20 random faults: single/double line deletion or duplication, token made invalid for its field (non-numeric text in numeric fields, unknown type names), token deletion / insertion, a record's serial number changed to a neighbouring one, the last letter of a two-letter element symbol damaged, one byte of a token overwritten by a byte that is not text (file read by path); a third of the files go through the path readers; "
+        rule="per file 8-20 random faults: single/double line deletion or duplication, token made invalid for its field (non-numeric text in numeric fields, unknown type names), token deletion / insertion, a record's serial number changed to a neighbouring one, the last letter of a two-letter element symbol damaged, one byte of a token overwritten by a byte that is not text (file read by path), a bond endpoint changed to another valid atom number (only the counts clause is judged); a third of the files go through the path readers; "
              "non-trivial = at least one molecule header survives in the damaged text"),
 ]
